@@ -7,7 +7,8 @@
    unicode.ToLower, printable = unicode.IsPrint; the hypotheses on them are facts of those tables. *)
 From Coq Require Import List NArith Bool.
 From Verif Require Import lib.Quote model.ExSyntax model.ExLexer model.ExParser model.ExScanner model.ExTemplate
-  proofs.ExScannerBound proofs.QuoteProofs proofs.ExScannerProofs proofs.ExEmbedded proofs.ExRender proofs.ExTemplateProofs.
+  model.ExPrinter proofs.ExScannerBound proofs.QuoteProofs proofs.ExScannerProofs proofs.ExEmbedded proofs.ExRoundtrip proofs.ExRender
+  proofs.ExGlue proofs.ExTemplateProofs.
 Import ListNotations.
 Open Scope N_scope.
 
@@ -122,3 +123,20 @@ Theorem c12_literal_one_token : forall printable s rest,
   /\ text_value (quote printable s) = Some s.
 Proof. exact literal_one_token_stmt. Qed.
 Print Assumptions c12_literal_one_token.
+
+(* Sentence 3 for what refactor.Template writes: for every accepted source with tree t whose printed names are NAME
+   lexemes and no keywords (names_ok), the template scanner, started after "@(", closes exactly the printed expression
+   at the ")" that follows it — whatever comes after (closed_expr), also when a text value ends in a backslash (the
+   scanner closes literals by backslash parity) — and, when moreover no text value ends in a backslash (texts_ok), the
+   lexer reads that same text as exactly the printed tokens: scanner and lexer/parser agree where the expression
+   ends and how it is cut into tokens.  Together with c12_template_embedded (e := the printed text) this covers a
+   rewritten expression embedded between arbitrary body text.  Not covered: arbitrary hand-written expression text
+   (free white space, every lexeme form) — there the agreement is the differential run and oracles O4/O5; and it is
+   false without texts_ok (F10b). *)
+Theorem c12_scanner_lexer_agree_printed : forall (lower : N -> N) (printable : N -> bool) inp ts t,
+  printable 10 = false -> valid_codepoints inp ->
+  lex inp = LOk ts -> parse_tokens ts = POk t -> names_ok lower t = true ->
+  closed_expr (print lower printable t)
+  /\ (texts_ok t = true -> lex (print lower printable t) = LOk (ptoks lower printable t)).
+Proof. exact scanner_lexer_agree_printed_stmt. Qed.
+Print Assumptions c12_scanner_lexer_agree_printed.
